@@ -190,6 +190,7 @@ pub fn ref_stmt(s: &MStmt) -> String {
         MStmt::Annotation(t) => format!("(ann {})", hex(&format!("@{t}"))),
         MStmt::IncludeStd => "(incstd)".into(),
         MStmt::ExprStmt(e) => leaf(format!("(exprstmt {})", ref_expr(e))),
+        MStmt::Scope(ss) => leaf(format!("(scope {})", ss.iter().map(ref_stmt).collect::<Vec<_>>().join(" "))),
         MStmt::Empty => leaf("(empty)".into()),
     }
 }
